@@ -139,7 +139,7 @@ def _child(argv):
             if sig not in seen or size < len(json.dumps(seen[sig])):
                 seen[sig] = case
                 new = True
-        if new or stats['runs'] % 20000 == 1:
+        if new or stats['runs'] % 5000 == 0:
             dump()
 
     atheris.Setup([sys.argv[0], corpus] + argv[3:], one)
@@ -162,6 +162,8 @@ def run(ctx, prop, runs=200000, max_time=150, max_len=96):
             {'skipped': f'atheris not importable: {exc!r}'})
         return
     runs = int(os.environ.get('VF_ATHERIS_RUNS', runs))
+    if prop == 'C39':
+        max_len = 300
     col = ctx.col
     base = os.path.join(ctx.scratch, 'atheris')
     corpus = os.path.join(base, 'corpus')
